@@ -4,6 +4,7 @@
   Other formats add their theorems in `Relic/Props/C01_*.lean`.
 -/
 import Relic.Proofs.PESign
+import Relic.Proofs.PEFrame
 import Relic.Props.C08
 namespace Relic.Props.C01
 open Relic Relic.PE
@@ -25,16 +26,17 @@ theorem pe_sign_then_redigest_partial (H : Bytes → Bytes) (f : Bytes) (d d' : 
     · omega
   rw [C08.pe_digest_ignores_signature_partial f d d' sig hp e hcs hsig e']
 
-/-- the full statement: the verifier's locator finds exactly the embedded blob and the re-digest succeeds.
-    Not yet proved for all files (needs the frame property of the header parser); checked per generated file by
-    the correspondence run (`located`, `same-digest`) on model and code. -/
-def pe_sign_then_verify_full : Prop :=
-  ∀ (f : Bytes) (d : Digest) (sig : Bytes), 64 ≤ u32 f 0x3c → DigestPE f = .ok d → d.certStart < 2 ^ 32 →
-    8 + ceil8 sig.length < 2 ^ 32 →
+/-- **pe_sign_then_verify.** The full statement: for every file `DigestPE` accepts (with `e_lfanew ≥ 64`) and every
+    signature blob `MakePatch` accepts, on the signed file the verifier's re-digest *succeeds* and hashes exactly
+    the stream that was signed, and the verifier's locator (`findSignatures` + certificate-table walk) finds exactly
+    one blob: the embedded signature, zero-padded to a multiple of 8 as `MakePatch` stores it. -/
+theorem pe_sign_then_verify (f : Bytes) (d : Digest) (sig : Bytes) (hp : 64 ≤ u32 f 0x3c)
+    (e : DigestPE f = .ok d) (hcs : d.certStart < 2 ^ 32) (hsig : 8 + ceil8 sig.length < 2 ^ 32) :
     (∃ d', DigestPE (signedBytes f d sig) = .ok d' ∧ d'.hashed = d.hashed) ∧
-    locate (signedBytes f d sig) = .ok [sig ++ List.replicate (ceil8 sig.length - sig.length) 0]
+    locate (signedBytes f d sig) = .ok [sig ++ List.replicate (ceil8 sig.length - sig.length) 0] :=
+  ⟨C08.pe_digest_ignores_signature f d sig hp e hcs hsig, locate_signed f d sig hp e hcs hsig⟩
 
 set_option maxRecDepth 100000 in
-example : 64 ≤ u32 C08.minimalPE 0x3c ∧ C08.minimalPE_ok = true := by decide
+example : 64 ≤ u32 C08.minimalPE 0x3c ∧ C08.minimalPE_ok = true ∧ C08.minimalPE_hyps = true := by decide
 
 end Relic.Props.C01
